@@ -347,6 +347,37 @@ udp_remove_pipe(udp_pipe *p)
 		}
 		if (srch == p) {
 			nni_id_remove(&ep->pipes, id);
+			// Pipes that were stored behind this one because of
+			// a collision (all pipes of a dialer share one peer
+			// address) must stay reachable: a hole in the probe
+			// sequence would hide them from udp_find_pipe and from
+			// their own removal (which left a dangling pointer in
+			// the map once the pipe was freed).  Move them up.
+			for (;;) {
+				uint64_t  to;
+				udp_pipe *next;
+				id++;
+				if (id == 0) {
+					id = 1;
+				}
+				if ((next = nni_id_get(&ep->pipes, id)) == NULL) {
+					break;
+				}
+				nni_id_remove(&ep->pipes, id);
+				to = nng_sockaddr_hash(&next->peer_addr);
+				while (nni_id_get(&ep->pipes, to) != NULL) {
+					to++;
+					if (to == 0) {
+						to = 1;
+					}
+				}
+				if (nni_id_set(&ep->pipes, to, next) != NNG_OK) {
+					// cannot happen after a removal, but do
+					// not keep a pipe we cannot find again
+					next->closed = true;
+					nni_pipe_close(next->npipe);
+				}
+			}
 			break;
 		}
 		id++;
